@@ -9,6 +9,8 @@ payload classes, on top of the instruction model of C01.  `sweepFrom` is defined
 -/
 import AgVerif.Proof.Sweep
 import AgVerif.Proof.SweepSound
+import AgVerif.Proof.SweepAssembled
+import AgVerif.Proof.SweepLookup
 namespace AgVerif.C02
 open AgVerif.Insn AgVerif.Sweep AgVerif.Gen
 
@@ -93,6 +95,73 @@ theorem sweep_assembled_partial (odex : Bool) (size : Nat) (bs : List Nat) (prog
     sweep odex size bs 0 = (withOffsets 0 prog, .done) :=
   sweepFrom_exact odex bs (maxIdxOf size bs) prog 0 hok (by omega)
 
+/-- EXACT RECOVERY, every assembled program.  `Valid prog` (decidable) asks of each item that it is an instruction of
+    the class the opcode table names for its opcode with attributes in the field ranges of the format document
+    (`ValidInsn`; nop padding is the instruction `nop`), or a packed-switch / sparse-switch / fill-array-data payload
+    whose element lists have the declared size and whose values fit their fields (`ValidPayload`; fill-array data is
+    `size * width` bytes rounded up to even, padding byte included).  No alignment is required, so the statement covers
+    in particular the 4-byte aligned payloads of the Dalvik format.  Then: assembling never fails, yields
+    `totalLen prog` (an even number of) bytes, and disassembling these bytes — even when followed by further bytes
+    `post` — with the declared size `totalLen prog / 2` code units returns exactly the program's items, in order, at
+    their prefix-sum byte offsets, and ends normally: it consumes exactly the declared size. -/
+theorem sweep_assembled (prog : List Item) (hv : Valid prog = true) :
+    ∃ bs, assemble prog = some bs ∧ AllBytes bs ∧ bs.length = totalLen prog ∧ totalLen prog % 2 = 0 ∧
+      ∀ post, sweep false (totalLen prog / 2) (bs ++ post) 0 = (withOffsets 0 prog, .done) :=
+  sweep_assembled_all prog hv
+
+/-- one valid item: the loop iteration rebuilds it from its `get_raw()` bytes followed by anything
+    (encode-then-decode at the level of the sweep; instructions: C01 `encode_decode`) -/
+theorem build_of_raw (it : Item) (hv : ValidItem it = true) :
+    ∃ bytes, it.raw = some bytes ∧ bytes.length = it.length ∧ AllBytes bytes ∧ 2 ≤ bytes.length ∧
+      ∀ rest, build false (bytes ++ rest) = some it :=
+  build_raw it hv
+
+/-- The yielded list of EVERY sweep is its item list laid out from the start index (the recorded offsets are the
+    running `idx += get_length()` of `off_to_pos` / `get_ins_off`), and every yielded item has positive length, so the
+    offsets are strictly increasing. -/
+theorem sweep_offsets (odex : Bool) (size : Nat) (bs : List Nat) (idx : Nat) :
+    (sweep odex size bs idx).1 = withOffsets idx ((sweep odex size bs idx).1.map Prod.snd) ∧
+    ∀ p ∈ (sweep odex size bs idx).1, 0 < p.2.length :=
+  sweepFrom_withOffsets odex bs (maxIdxOf size bs) _ idx (Nat.le_refl _)
+
+/-- `DCode.off_to_pos`, for the instruction list of ANY code (`DCode` sweeps from 0): the offset that is the sum of
+    the lengths of the first `n` instructions (`offsetOf`) maps to position `n`; every other offset maps to -1. -/
+theorem off_to_pos_spec (odex : Bool) (size : Nat) (bs : List Nat) :
+    let items := (sweep odex size bs 0).1
+    let prog := items.map Prod.snd
+    (∀ n, n < prog.length → offToPos items (offsetOf prog n) = (n : Int)) ∧
+    (∀ off, (∀ n, n < prog.length → off ≠ offsetOf prog n) → offToPos items off = -1) := by
+  intro items prog
+  obtain ⟨hlay, hpos⟩ := sweep_offsets odex size bs 0
+  have hpos' : ∀ it ∈ prog, 0 < it.length := by
+    intro it hit
+    obtain ⟨p, hp, rfl⟩ := List.mem_map.mp hit
+    exact hpos p hp
+  refine ⟨fun n hn => ?_, fun off h => ?_⟩
+  · show offToPos (sweep odex size bs 0).1 _ = _
+    rw [hlay]; exact (offToPos_hit prog n hpos' hn).1
+  · show offToPos (sweep odex size bs 0).1 _ = _
+    rw [hlay]; exact (offToPos_miss prog off h).1
+
+/-- `DCode.get_ins_off`: the instruction at prefix-sum offset `offsetOf prog n` is the `n`-th one; `None` for every
+    other offset. -/
+theorem get_ins_off_spec (odex : Bool) (size : Nat) (bs : List Nat) :
+    let items := (sweep odex size bs 0).1
+    let prog := items.map Prod.snd
+    (∀ n (hn : n < prog.length), getInsOff items (offsetOf prog n) = some prog[n]) ∧
+    (∀ off, (∀ n, n < prog.length → off ≠ offsetOf prog n) → getInsOff items off = none) := by
+  intro items prog
+  obtain ⟨hlay, hpos⟩ := sweep_offsets odex size bs 0
+  have hpos' : ∀ it ∈ prog, 0 < it.length := by
+    intro it hit
+    obtain ⟨p, hp, rfl⟩ := List.mem_map.mp hit
+    exact hpos p hp
+  refine ⟨fun n hn => ?_, fun off h => ?_⟩
+  · show getInsOff (sweep odex size bs 0).1 _ = _
+    rw [hlay]; exact (offToPos_hit prog n hpos' hn).2
+  · show getInsOff (sweep odex size bs 0).1 _ = _
+    rw [hlay]; exact (offToPos_miss prog off h).2
+
 /-! ### non-vacuity and the repaired witnesses -/
 
 -- D2: `ff 01 00 00` is const-method-type v1 (opcode 0xff with a register byte)
@@ -111,5 +180,11 @@ example : sweep false 9 [0, 0, 0x00, 0x01, 0x01, 0x00, 5, 0, 0, 0, 0xfd, 0xff, 0
   sweep_assembled_partial false 9 _ [.insn .f10x ⟨.f10x, 0, []⟩, .packed 1 5 [-3], .insn .f10x ⟨.f10x, 0x0e, []⟩,
       .insn .f10x ⟨.f10x, 0x0e, []⟩]
     ⟨by decide, by rfl, by decide, by rfl, by decide, by rfl, by decide, by rfl, trivial⟩ (by rfl)
+
+-- a valid program with all item kinds: nop; const/4 v1,-1; packed-switch payload; sparse-switch payload;
+-- fill-array-data payload (3 one-byte elements + padding byte); invoke-virtual {v1,v2}, meth@3; const-method-type (ff) v1
+example : Valid [.insn .f10x ⟨.f10x, 0, []⟩, .insn .f11n ⟨.f11n, 0x12, [1, -1]⟩, .packed 2 5 [-3, 7],
+    .sparse 1 [9] [-2], .fill 1 3 [7, 8, 9, 0], .insn .f35c ⟨.f35c, 0x6e, [2, 3, 1, 2, 0, 0, 0]⟩,
+    .insn .f21c ⟨.f21c, 0xff, [1, 0]⟩] = true := by decide +kernel
 
 end AgVerif.C02
